@@ -111,8 +111,8 @@ prop("C10",
      min_nontrivial=10000)
 
 prop("C11",
-     quick=[plain("TestC11Exhaustive"), plain("TestC11LargeKeys"), plain("TestC11Typed"), rapid("TestC11Random", 40000), plain("TestSizeSweep", shards=4)],
-     thorough=[plain("TestC11Exhaustive", env={"VERIF_C11_PAIRS": 1}, shards=8), plain("TestC11LargeKeys"), plain("TestC11Typed"), rapid("TestC11Random", 400000, shards=16), plain("TestSizeSweep", shards=4)],
+     quick=[plain("TestC11Exhaustive"), plain("TestC11LargeKeys"), plain("TestC11Typed"), plain("TestC11Positions"), rapid("TestC11Random", 40000), plain("TestSizeSweep", shards=4)],
+     thorough=[plain("TestC11Exhaustive", env={"VERIF_C11_PAIRS": 1}, shards=8), plain("TestC11LargeKeys"), plain("TestC11Typed"), plain("TestC11Positions"), rapid("TestC11Random", 400000, shards=16), plain("TestSizeSweep", shards=4)],
      rule="10 erroring seeds (invalid type, arity, unknown function, zero step, inconsistent/bad key, variadic type, expref as value, nested) x 40 strict context constructors (every operator side, projection kind incl. left operands and right-hand sides, filter condition, function argument positions, expression-reference bodies, multi-select members, pipes) exhaustively (thorough: all ordered pairs), every binary operator with an operand of each of the 36 universe values on the other side of the seed (4 carriers; the reference model decides whether the seed must be evaluated), by-expression functions on arrays of 22/41/61 elements with one erroring key at every position (errors raised inside sort comparators), 11 non-strict controls (short-circuit, empty/non-matching projections, multi-select on null), and random stacks of depth 1..6 incl. document-dependent seeds. Oracle: metamorphic (Search(E) errors => Search(C[E]) errors and returns nil) for stacks that guarantee evaluation, and differential vs the reference evaluator for all. Non-trivial: a strict stack whose seed errors.",
      technique="metamorphic error-preservation under strict evaluation contexts + differential vs reference evaluator; exhaustive singles/pairs, random stacks",
      level_text="All single contexts (thorough: pairs) are enumerated; deeper nestings randomly.",
@@ -148,8 +148,8 @@ prop("C12",
      assumptions=["schedules are not enumerated: the Go scheduler is not controlled by the harness", "a schedule-dependent failure is replayed by re-running the case 200 times under -race"])
 
 prop("C13",
-     quick=[rapid("TestC13", 1500, shards=4), rapid("TestC13Structs", 12000, shards=2), plain("TestProducerConsumerGrid", shards=4), plain("TestC13Representation"), plain("TestC10Matrix", env={"VERIF_C10_ARITY": 2}, shards=2)],
-     thorough=[rapid("TestC13", 40000, shards=14, timeout="2h"), rapid("TestC13Structs", 200000, shards=2), plain("TestProducerConsumerGrid", shards=4), plain("TestC13Representation"), plain("TestC10Matrix", env={"VERIF_C10_ARITY": 2}, shards=2)],
+     quick=[rapid("TestC13", 1500, shards=4), rapid("TestC13Structs", 12000, shards=2), plain("TestProducerConsumerGrid", shards=4), plain("TestC13Representation"), plain("TestC13Endurance"), plain("TestC10Matrix", env={"VERIF_C10_ARITY": 2}, shards=2)],
+     thorough=[rapid("TestC13", 40000, shards=14, timeout="2h"), rapid("TestC13Structs", 200000, shards=2), plain("TestProducerConsumerGrid", shards=4), plain("TestC13Representation"), plain("TestC13Endurance"), plain("TestC10Matrix", env={"VERIF_C10_ARITY": 2}, shards=2)],
      rule="rapid state machine (t.Repeat): state = pool of <= 6 compiled expressions (literal-sharing expressions, reorder templates, document-aware all-function expressions), pool of <= 6 documents (live objects), one long-lived Parser; actions compile / add document / search(i,j) / repeat / one-shot / parse valid / parse invalid (unclosed raw strings after an escaped quote, bad escapes, every parser error site, random bytes) / parse long-then-short; invariant after every step: every pool document deep-equals its original. Model: each search equals a freshly compiled expression on a deep copy of the original document, the one-shot Search, and the reference model (bag-aware); each reused-parser Parse equals NewParser().Parse (AST dump, error text, SyntaxError fields). Additionally (TestC13Structs): one compiled navigational expression searched twice round over 2-4 documents of different run-time generated struct types must agree with the one-shot Search every time. Non-trivial: a history with >= 2 searches on one compiled expression where an earlier one failed or used another document, or a valid parse after an invalid one on the reused Parser. Distinct by hash of the action trace.",
      technique="stateful model-based testing (rapid state machine) against the model 'fresh Compile / fresh Parser per call' and the reference evaluator",
      level_text="Histories are explored randomly and shrink as one value; the replay file is the action trace.",
